@@ -79,17 +79,27 @@ def generate(prop, seed, idx, opts):
         rec["config"]["gc_initially_enabled"] = r.chance(65)
         return rec
     r = Rng(derive(seed, prop, idx, "gcguard"))
-    nact = r.weighted([(1, 1), (2, 5), (3, 4)])
+    nact = r.weighted([(1, 2), (2, 5), (3, 4)])
     progs = []
     for _ in range(nact):
         p = gen_program(r, 3, [r.range(1, 5)])
         progs.append(p or [["call", 1, False]])
     policy = r.weighted([("random", 6), ("pct", 3)])
-    return {"property": prop, "engine": name, "origin_seed": seed, "run_index": idx,
-            "config": {"actors": nact, "gc_initially_enabled": r.chance(65), "policy": policy,
-                       "switch_pct": r.choice([10, 25, 40, 60]), "granularity": opts.get("granularity", "line"),
-                       "main_actor": r.chance(50), "sched_seed": r.next() & 0xFFFFFFFF},
-            "programs": progs}
+    cfg = {"actors": nact, "gc_initially_enabled": r.chance(65), "policy": policy,
+           "switch_pct": r.choice([10, 25, 40, 60]), "granularity": opts.get("granularity", "line"),
+           "main_actor": r.chance(50), "sched_seed": r.next() & 0xFFFFFFFF}
+    r2 = Rng(derive(seed, prop, idx, "gcguard-faults"))
+    if nact == 1 and r2.chance(60):
+        # the application switches the collector itself between two episodes of calls (only ever at global quiescence,
+        # i.e. in single-actor programs): "what it was before the first of them started" is then the new state
+        p = progs[0]
+        for _ in range(r2.range(1, 2)):
+            p.insert(r2.range(0, len(p)), ["toggle", r2.chance(50)])
+    if cfg["main_actor"] and r2.chance(25):
+        # fault: Ctrl-C arrives while the main thread waits for the guard's lock on its way INTO a call (lock acquisition is
+        # where a blocked main thread really takes a KeyboardInterrupt)
+        cfg["interrupt_enter_at"] = r2.range(1, 4)
+    return {"property": prop, "engine": name, "origin_seed": seed, "run_index": idx, "config": cfg, "programs": progs}
 
 
 # ------------------------------------------------------------------ execution
@@ -132,6 +142,22 @@ def execute(rec):
             raise Broken(json.dumps({"clause": "underflow-reported", "log": errors[:2]}))
 
     sched.on_step = invariant
+    fault = {"enter_acquires": 0, "fired": 0}
+    enter_code = bz._enter_z3.__code__
+
+    def on_acquire(tid):
+        import sys
+
+        if tid != 0 or not cfg.get("main_actor") or not cfg.get("interrupt_enter_at"):
+            return
+        if sys._getframe(2).f_code is not enter_code:
+            return
+        fault["enter_acquires"] += 1
+        if fault["enter_acquires"] == cfg["interrupt_enter_at"]:
+            fault["fired"] += 1
+            raise KeyboardInterrupt("injected while waiting for _gc_lock in _enter_z3")
+
+    lock.on_acquire = on_acquire
 
     def body_enter():
         state["in_progress"] += 1
@@ -156,9 +182,21 @@ def execute(rec):
         return bz.condom(inner)
 
     def run_items(items):
+        nonlocal initial
         for it in items:
+            if it[0] == "toggle":
+                # only generated for single-actor programs and only at the top level: nothing is in progress
+                if state["in_progress"] == 0:
+                    (model.enable if it[1] else model.disable)()
+                    initial = model.flag
+                continue
             if it[0] == "pair":
-                bz._enter_z3()
+                try:
+                    bz._enter_z3()
+                except KeyboardInterrupt:
+                    if not fault["fired"]:
+                        raise
+                    continue  # the call never started: a correct caller does not pair it with an exit
                 body_enter()
                 try:
                     invariant(None, ("inside-pair", 0))
@@ -172,6 +210,9 @@ def execute(rec):
                     f()
                 except bz.ClaripyZ3Error:
                     if not it[2]:
+                        raise
+                except KeyboardInterrupt:
+                    if not fault["fired"]:
                         raise
 
     # code objects whose lines / instructions are pre-emption points
@@ -218,7 +259,9 @@ def execute(rec):
                     "max_in_progress": state["max_in_progress"], "gc_toggles": len(model.calls), "ops": sched.steps,
                     "queries": state["inside_checks"]}
     out["nontrivial"] = sched.switches >= 1 and len(rec["programs"]) >= 2
-    out["cov"] = {"contended_runs": 1 if lock.contended else 0, "overlap_runs": 1 if state["max_in_progress"] >= 2 else 0,
+    out["fired"] = [[0, fault["enter_acquires"], "interrupt-at-lock", "enter"]] * fault["fired"]
+    out["cov"] = {"interrupt_injected_runs": fault["fired"], "user_toggle_runs": 1 if any(i[0] == "toggle" for p in rec["programs"] for i in p) else 0,
+                  "contended_runs": 1 if lock.contended else 0, "overlap_runs": 1 if state["max_in_progress"] >= 2 else 0,
                   "policy_" + cfg["policy"]: 1, "main_actor_runs": 1 if main_tid is not None else 0}
     out["switch_log"] = sched.switch_log[:60]
     return out
